@@ -51,6 +51,7 @@ type Link struct {
 	Window       int // max bytes buffered towards the server; 0 = unbounded
 	ChunkMode    int // 0: as much as fits, 1: random prefix, 2: single bytes, 3: random small (1..8)
 	StallReads   bool
+	Opaque       bool // log sizes only (TLS: the bytes are random, the sizes are not)
 
 	Reads, WritesN int
 	FaultFired     bool // an injected read/write fault has fired
@@ -194,7 +195,11 @@ func (l *Link) appendC2S(p []byte) {
 	l.AllC2S = append(l.AllC2S, p...)
 	l.Writes = append(l.Writes, WriteRec{T: l.S.Now(), Seq: l.S.Stamp(), Data: string(p)})
 	if l.S.Tracing() {
-		l.S.Logf("net%d write#%d %q", l.ID, l.WritesN, string(p))
+		if l.Opaque {
+			l.S.Logf("net%d write#%d %d bytes", l.ID, l.WritesN, len(p))
+		} else {
+			l.S.Logf("net%d write#%d %q", l.ID, l.WritesN, string(p))
+		}
 	}
 }
 
@@ -218,7 +223,11 @@ func (l *Link) Send(data string) {
 	}
 	l.s2c = append(l.s2c, data...)
 	if l.S.Tracing() {
-		l.S.Logf("net%d server sends %q", l.ID, data)
+		if l.Opaque {
+			l.S.Logf("net%d server sends %d bytes", l.ID, len(data))
+		} else {
+			l.S.Logf("net%d server sends %q", l.ID, data)
+		}
 	}
 }
 
@@ -313,6 +322,39 @@ func (l *Link) RecvLineFor(d time.Duration) (string, bool) {
 // Unread returns the bytes written by the client that the server has not
 // framed into a line yet (possibly a partial line).
 func (l *Link) Unread() string { return string(l.srvBuf) + string(l.c2s) }
+
+// ServerConn is the server's end as a net.Conn (used to put a real crypto/tls
+// server behind the simulated socket).
+type ServerConn struct{ L *Link }
+
+func (c *ServerConn) LocalAddr() net.Addr                { return addr(c.L.Addr) }
+func (c *ServerConn) RemoteAddr() net.Addr               { return addr("client") }
+func (c *ServerConn) SetDeadline(t time.Time) error      { return nil }
+func (c *ServerConn) SetReadDeadline(t time.Time) error  { return nil }
+func (c *ServerConn) SetWriteDeadline(t time.Time) error { return nil }
+
+func (c *ServerConn) Read(p []byte) (int, error) {
+	l := c.L
+	if len(l.c2s) == 0 && !l.ClientEnd {
+		simrt.Block("simnet.ServerRead", "server waiting for client bytes", func() bool { return len(l.c2s) > 0 || l.ClientEnd })
+	}
+	if len(l.c2s) == 0 {
+		return 0, io.EOF
+	}
+	n := copy(p, l.c2s)
+	l.c2s = append(l.c2s[:0], l.c2s[n:]...)
+	return n, nil
+}
+
+func (c *ServerConn) Write(p []byte) (int, error) {
+	if c.L.ClientEnd {
+		return 0, &net.OpError{Op: "write", Net: "sim", Err: ErrClosed}
+	}
+	c.L.Send(string(p))
+	return len(p), nil
+}
+
+func (c *ServerConn) Close() error { c.L.CloseByServer(); return nil }
 
 // ---- dialer ----------------------------------------------------------------
 
